@@ -21,6 +21,7 @@ from .. import core
 from ..model import bls as MB
 from ..model import params, zcash as Z
 from . import conv
+from . import install as _install
 from .install import _safe, watch
 from .zcash import in_subgroup
 
@@ -429,6 +430,8 @@ def _wrap_api(cls, name, suite):
     pre = PRE.get(name)
 
     def wrapper(*a, **k):
+        if _install.PASSTHROUGH[0]:
+            return bound(*a, **k)
         _API_DEPTH[0] += 1
         try:
             if pre is not None:
